@@ -154,17 +154,33 @@ def k(x, starts):
 
 def _thread_selected_sites(mod):
     out = []
+    # helpers of the module that return the thread / core count (possibly clamped or converted) are queries themselves
+    queries = list(_THREAD_QUERIES)
+    for _ in range(3):
+        for fn in [n for n in ast.walk(mod) if isinstance(n, ast.FunctionDef)]:
+            if fn.name in queries: continue
+            tainted = set()
+            for n in ast.walk(fn):
+                if isinstance(n, ast.Assign) and any(t_ in ast.unparse(n.value) for t_ in queries):
+                    tainted |= {t.id for t in n.targets if isinstance(t, ast.Name)}
+            for n in ast.walk(fn):
+                if isinstance(n, ast.Return) and n.value is not None and (any(t_ in ast.unparse(n.value) for t_ in queries) or any(isinstance(x, ast.Name) and x.id in tainted for x in ast.walk(n.value))):
+                    # the count itself (an integer expression of it), not a statistic computed under it
+                    if not any(isinstance(x, ast.Call) and ast.unparse(x.func).split(".")[-1] not in ("max", "min", "int", "len") + tuple(queries) for x in ast.walk(n.value)):
+                        queries.append(fn.name); break
+    _Q = tuple(queries)
     for fn in [n for n in ast.walk(mod) if isinstance(n, ast.FunctionDef)]:
+        if fn.name in _Q: continue
         tainted = set()
         for n in ast.walk(fn):
-            if isinstance(n, ast.Assign) and any(t_ in ast.unparse(n.value) for t_ in _THREAD_QUERIES):
+            if isinstance(n, ast.Assign) and any(t_ in ast.unparse(n.value) for t_ in _Q):
                 for t in n.targets:
                     if isinstance(t, ast.Name): tainted.add(t.id)
         for n in ast.walk(fn):
             test = n.test if isinstance(n, (ast.If, ast.IfExp, ast.While)) else None
             if test is None: continue
             src = ast.unparse(test)
-            if any(t_ in src for t_ in _THREAD_QUERIES) or any(isinstance(x, ast.Name) and x.id in tainted for x in ast.walk(test)):
+            if any(t_ in src for t_ in _Q) or any(isinstance(x, ast.Name) and x.id in tainted for x in ast.walk(test)):
                 # only a branch that selects the computation (returns, or calls other functions): picking a constant such as a chunk size by the
                 # core count leaves the arithmetic alone (chunk-size independence is decided separately)
                 arms = ([n.body, n.orelse] if isinstance(n, ast.IfExp) else [ast.Module(body=n.body, type_ignores=[]), ast.Module(body=n.orelse, type_ignores=[])])
